@@ -70,11 +70,25 @@ def shared_shuffles():
                 yield "N0=const %d %s ; N1=%s ; N2=cogroup N0 N1 ; OUT N2" % (nsh, rows, a)
 
 
+def direct_and_shuffled():
+    """a (materialised or pipelined) slice consumed both without a shuffle and through a shuffle into 1..3 partitions,
+    compiled in either order (always run in full)"""
+    rows = "1:1 2:2 1:3 4:4 2:5 7:6 1:7 3:8 2:9 5:10"
+    for nsh in (2, 3):
+        for m in ("mapm", "map"):
+            for k in (1, 2, 3):
+                if k == nsh:
+                    continue
+                head = "N0=const %d %s ; N1=%s N0 id ; N2=map N1 inc ; N3=reshard N1 %d" % (nsh, rows, m, k)
+                yield head + " ; N4=cogroup N2 N3 ; OUT N4"
+                yield head + " ; N4=cogroup N3 N2 ; OUT N4"
+
+
 def gen(r, tier):
     ss = list(shared_shuffles())
     if tier == "quick":
         ss = [c for c in ss if r.below(3) == 0]
-    for p in ss:
+    for p in ss + list(direct_and_shuffled()):
         yield "local CH%d ;; %s" % (r.choice([2, 128]), p)
     # bounded-exhaustive part: all chains of depth 1 (and 2 in the thorough tier; a sample of them in the quick tier)
     for p in exhaustive(1):
